@@ -47,7 +47,7 @@ def _work(job):
     rec, sd = job["rec"], job["seed"]
     name, text, lm = normgen.render(rec, sd)
     v = rec["viol"]
-    line = lm[v["line"] - 1] if 1 <= v["line"] <= len(lm) else None
+    line = lm[v["line"] - 1] + v.get("off", 0) if 1 <= v["line"] <= len(lm) else None      # off: physical line inside a split statement
     o = observe.run_file(text, name)
     got = [(d[1], d[2], d[3]) for d in o["diags"]]
     if v["line"] == 0:
